@@ -1,5 +1,6 @@
 SPECIFICATION Spec
 CONSTANTS
+  Aliasing = TRUE
   MaxSeqs = 3
   MaxLen = 3
   MaxGapCols = 3
@@ -8,4 +9,5 @@ INVARIANT InvGroups
 INVARIANT InvPartition
 INVARIANT InvReplay
 INVARIANT InvFinal
+INVARIANT InvObjects
 CHECK_DEADLOCK FALSE
